@@ -342,6 +342,17 @@ fn writer_cases<T: serde::Serialize>(sink: &mut Sink, o: &mut Oracle, rng: &mut 
     }
 }
 
+/// wraps whatever error the serializer reports while the inner value is written (as error-context helpers do)
+struct Wrap<T>(T);
+impl<T: serde::Serialize> serde::Serialize for Wrap<T> {
+    fn serialize<S: serde::Serializer>(&self, s: S) -> Result<S::Ok, S::Error> {
+        use serde::ser::Error as _;
+        self.0.serialize(s).map_err(|e| S::Error::custom(format!("while writing a wrapped part: {e}")))
+    }
+}
+#[derive(serde::Serialize)]
+struct WrapDoc { id: u32, items: Wrap<Vec<Wrap<String>>>, meta: Wrap<BTreeMap<String, Wrap<f64>>>, tail: String }
+
 #[derive(serde::Serialize)]
 struct Rec { name: String, n: i32, tags: Vec<String>, nested: BTreeMap<String, Option<f64>> }
 
@@ -468,6 +479,11 @@ fn generate(a: &Args) -> i32 {
     writer_cases(&mut sink, &mut o, &mut rng, &rec, "Rec", a.thorough);
     writer_cases(&mut sink, &mut o, &mut rng, &vec![vec![1, 2], vec![], vec![3]], "Vec<Vec<i32>>", a.thorough);
     writer_cases(&mut sink, &mut o, &mut rng, &"plain", "str", a.thorough);
+    // user `Serialize` impls / `serialize_with` helpers that WRAP the errors of the part they write (error context):
+    // a writer fault inside such a part must still come back as the I/O error
+    let wrapped = WrapDoc { id: 7, items: Wrap(vec![Wrap("alpha".to_string()), Wrap("beta gamma".to_string()), Wrap("multi\nline text".to_string())]),
+        meta: Wrap([("k1".to_string(), Wrap(1.5f64)), ("k2".to_string(), Wrap(-2.0))].into_iter().collect()), tail: "end".into() };
+    writer_cases(&mut sink, &mut o, &mut rng, &wrapped, "WrapDoc", a.thorough);
 
     o.out.flush().unwrap();
     let fails: u64 = o.per_id.values().sum();
